@@ -68,6 +68,9 @@ def cfgs(tier, seed):
         out.append(dict(base, sweeper='imex_1st_order', qd='IE', prob='dahlquist', n=2, M=[2, 1], NP=1, maxiter=3, predict=None))
         out.append(dict(base, sweeper='generic_implicit', qd='LU', prob='dahlquist', n=1, M=[3], NP=1, maxiter=3))
         out.append(dict(base, sweeper='explicit', qd='EE', prob='dahlquist', n=1, M=[2], NP=1, maxiter=5))
+        # a full block followed by a shorter last block (number of steps not a multiple of the steps per block)
+        out.append(dict(base, sweeper='generic_implicit', qd='LU', prob='dahlquist', n=1, M=[2], NP=2, maxiter=3, jac=False, nsteps=3))
+        out.append(dict(base, sweeper='generic_implicit', qd='IE', prob='dahlquist', n=1, M=[2, 1], NP=2, maxiter=2, predict='fine_only', nsteps=3))
         # different preconditioners for the two implicit parts
         out.append(dict(base, sweeper='multi_implicit', qd='LU', qd2='IE', prob='dahlquist', n=1, M=[3], NP=1, maxiter=6))
         # relative residual with a left end node (the first node's residual is identically zero there)
@@ -126,7 +129,7 @@ def run_task(rep, task):
 def cname(cfg):
     return (f"{cfg['sweeper']}/{cfg['qd']}/{cfg.get('quad_type', 'RADAU-RIGHT')}/{cfg['prob']}{cfg['n']}/M{'-'.join(map(str, cfg['M']))}/NP{cfg['NP']}x{cfg.get('blocks', 1)}/K{cfg['maxiter']}/"
             f"{cfg.get('predict')}/jac{int(cfg.get('jac', True))}/{cfg.get('residual_type', 'full_abs')}/ns{cfg.get('nsweeps', 1)}/f{int(bool(cfg.get('finter')))}/{cfg.get('initial_guess', 'spread')}"
-            + ('/atd' if cfg.get('all_to_done') else '') + ('/cu' if cfg.get('cu') else '') + (f"/etol{cfg['e_tol']}" if cfg.get('e_tol') is not None else '') + ('/exthook' if cfg.get('exthook') else '') + (f"/Q2{cfg['qd2']}" if cfg.get('qd2') else '') + ('/inexact' if cfg.get('inexact') else '') + (f"/dtinit{cfg['dt_initial']}" if cfg.get('dt_initial') is not None else ''))
+            + ('/atd' if cfg.get('all_to_done') else '') + ('/cu' if cfg.get('cu') else '') + (f"/etol{cfg['e_tol']}" if cfg.get('e_tol') is not None else '') + ('/exthook' if cfg.get('exthook') else '') + (f"/Q2{cfg['qd2']}" if cfg.get('qd2') else '') + (f"/nsteps{cfg['nsteps']}" if cfg.get('nsteps') else '') + ('/inexact' if cfg.get('inexact') else '') + (f"/dtinit{cfg['dt_initial']}" if cfg.get('dt_initial') is not None else ''))
 
 
 def coll_constant(Q, A, dt, weights=None):
@@ -258,7 +261,7 @@ def float_reference(cfg, x):
     u0 = P.dtype_u(P.init)
     u0[:] = x
     wr.LOG.clear()
-    uend, stats = ctl.run(u0, 0.0, cfg['dt'] * cfg['NP'] * cfg.get('blocks', 1))
+    uend, stats = ctl.run(u0, 0.0, cfg['dt'] * cfg.get('nsteps', cfg['NP'] * cfg.get('blocks', 1)))
     L = ctl.MS[0].levels[0]
     Q = L.sweep.coll.Qmat
     M = Q.shape[0] - 1
